@@ -47,7 +47,7 @@ THEOREMS = [
 ]
 
 CLASSES = ci.CLASSES
-FEATURES = {"transforms", "universes", "lattice", "complements", "data_placement", "shortcuts", "message"}
+FEATURES = {"transforms", "universes", "lat_simple", "complements", "data_placement", "shortcuts", "message"}
 PCODE = {"n": 0, "p": 1, "e": 2}
 ALL_FLAGS = [list(f) for f in itertools.product([False, True], repeat=5)]
 CORPUS_DIR = os.path.join(VERIF, "corpus", "C09")
